@@ -12,7 +12,9 @@ EXPLANATION = (
     "every file-handle field of the struct (fields enumerated from the ADT), ?-propagates each result, clears the flag "
     "only in a block dominated by all of them, and the per-file chain reaches rabuf's flush and, for sync_*, "
     "File::sync_all / File::sync_data; (3) FileDb::sync_all/sync_data reach every registry of open maps and call the "
-    "same-named map method, ?-propagating each result.")
+    "same-named map method, ?-propagating each result: each round of a registry loop invokes the callback or leaves by "
+    "the not-dirty edge of an is_dirty() test, the only successful way out of a loop is the iterator's None, and an exit "
+    "that does not walk the maps is guarded by a dirtiness scan of every registry; `Result::or` counts as swallowing.")
 NOT_DECIDED = ("that the bytes written equal the logical state at that moment; that the OS honours fsync; the "
                "kill-right-after / directory-copy semantics; rabuf's write-back internals beyond reaching its flush.")
 ASSUMPTIONS = ["a chunk's `dirty = true` store and File::set_len are the only ways buffered file content changes "
